@@ -150,7 +150,7 @@ def gen_call(r, cfg, m, rule):
     return {"mode": "request-dict" if dict_mode else "request-instance", "fields": fields}
 
 
-def gen_cfg(r, listed=None, transport=None, add_iam=None, own=None, mixed=False, t3=True, iam_rules=None, layout=None):
+def gen_cfg(r, listed=None, transport=None, add_iam=None, own=None, mixed=False, t3=True, iam_rules=None, layout=None, selective=None):
     cfg = {"t3": t3}
     if listed is None:
         listed = [a for a in (OPS, IAM, LOC) if r.maybe(0.65)]
@@ -206,7 +206,70 @@ def gen_cfg(r, listed=None, transport=None, add_iam=None, own=None, mixed=False,
     r.shuffle(order)
     cfg["order"] = order                                              # order of the second round of calls
     apply_layout(r, cfg, layout)                                      # (drawn last: the fields above do not depend on it)
+    apply_selective(r, cfg, selective)                                # (drawn after the layout, for the same reason)
     return cfg
+
+
+# ---- selective GAPIC generation (publishing.library_settings[].python_settings.common.selective_gapic_generation): an allow-list of
+# RPCs; the others are OMITTED from the library (default) or generated as INTERNAL (`generate_omitted_as_internal`: the client method
+# gets a private name `_set_iam_policy`, the client class the prefix `Base`; transport property and stub keep their names).
+def apply_selective(r, cfg, selective=None):
+    """selective: None = draw (half of the APIs that define IAM RPCs themselves, 15 % of the others), False = off, or a dict
+    {"internal": bool, "own": "allow" | "out" | "mixed"}"""
+    if selective is False:
+        return cfg
+    if selective is None:
+        if not r.maybe(0.5 if cfg["own"] else 0.15):
+            return cfg
+        selective = {"internal": r.maybe(0.6), "own": r.pick(["allow", "out", "out", "mixed"])}
+    # the allow-list names only RPCs of services that lie inside EVERY sub-package view holding a service: the generator validates the
+    # list once per view against that view's methods and aborts with "Method does not exist" otherwise (open finding of C16,
+    # multi-view:settings-validated-per-view — not this property's subject); nothing else is excluded
+    ok = [s for s in services_of(cfg) if in_every_view(cfg, s)]
+    if not ok:
+        return cfg
+    tgt = target_of(cfg)
+    if tgt not in ok:
+        cfg["target"] = tgt = r.pick(ok)
+    allow = [f"{tgt}.{BASE_RPC[tgt]}"]                                # the examined service keeps a public RPC (in omit mode: exists at all)
+    for s in ok:
+        if s != tgt and r.maybe(0.6):
+            allow.append(f"{s}.{BASE_RPC[s]}")
+    for k, m in enumerate(cfg["own"] if cfg["own_service"] in ok else []):
+        if selective["own"] == "allow" or (selective["own"] == "mixed" and (k % 2 == 0 if len(cfg["own"]) > 1 else r.maybe(0.5))):
+            allow.append(f"{cfg['own_service']}.{m}")
+    cfg["selective"] = {"internal": bool(selective["internal"]), "allow": allow}
+    return cfg
+
+
+BASE_RPC = {"Library": "GetBook", "Admin": "PingBook"}
+
+
+def in_every_view(cfg, svc):
+    """is service `svc` part of every sub-package view that holds a service (= of every `api` object a client is rendered with)"""
+    t = sub_tuple(cfg, svc)
+    return all(t[:len(v)] == v for v in (sub_tuple(cfg, x) for x in services_of(cfg)) if v)
+
+
+def rpc_status(cfg, svc, meth):
+    """public | internal | omitted: what selective generation makes of RPC `meth` of service `svc`"""
+    sg = cfg.get("selective")
+    if not sg or f"{svc}.{meth}" in sg["allow"]:
+        return "public"
+    return "internal" if sg["internal"] else "omitted"
+
+
+def api_rpcs(cfg):
+    """service -> [(RPC, status)] of the API as declared"""
+    out = {s: [(BASE_RPC[s], rpc_status(cfg, s, BASE_RPC[s]))] for s in services_of(cfg)}
+    for m in cfg.get("own", []):
+        s = cfg.get("own_service", "Library")
+        out[s].append((m, rpc_status(cfg, s, m)))
+    return out
+
+
+def own_status(cfg, m):
+    return rpc_status(cfg, cfg.get("own_service", "Library"), m)
 
 
 # ---- where the files of the API live: the API package `acme.lib.v1` itself or a proto sub-package of it.  A service declared in
@@ -323,8 +386,14 @@ def yaml_dict(cfg):
         if ru["additional"]:
             d["additional_bindings"] = [b(x) for x in ru["additional"]]
         rules.append(d)
-    return {"type": "google.api.Service", "config_version": 3, "name": "lib.example.com",
-            "apis": [{"name": a} for a in cfg["apis"]], "http": {"rules": rules}}
+    y = {"type": "google.api.Service", "config_version": 3, "name": "lib.example.com",
+         "apis": [{"name": a} for a in cfg["apis"]], "http": {"rules": rules}}
+    sg = cfg.get("selective")
+    if sg:
+        methods = [f"{pkg_of(cfg, x.split('.')[0])}.{x}" for x in sg["allow"]]
+        y["publishing"] = {"library_settings": [{"version": PKG, "python_settings": {"common": {"selective_gapic_generation": {
+            "methods": methods, "generate_omitted_as_internal": bool(sg["internal"])}}}}]}
+    return y
 
 
 RESPONSES = {
@@ -340,9 +409,15 @@ RESPONSES = {
 
 def call_rounds(cfg):
     """the call program of one session: round 1 every mixin RPC in table order (caller's request form, metadata, timeout);
-    round 2 every RPC again on the same client in another order (stub caches, caller's retry); round 3 without a request"""
+    round 2 every RPC again on the same client in another order (stub caches, caller's retry); round 3 without a request;
+    round 4 the examined service's OWN IAM-named RPCs that selective generation made internal, by their private name"""
     order2 = cfg.get("order") or list(reversed(ALL_METHODS))
-    return [list(ALL_METHODS), list(order2), list(ALL_METHODS)]
+    own4 = [m for m in ALL_METHODS if m in own_internal(cfg) and cfg.get("own_service", "Library") == target_of(cfg)]
+    return [list(ALL_METHODS), list(order2), list(ALL_METHODS), own4]
+
+
+REST_ROUNDS = (1, 2, 4)
+OWN_FIELDS = {"resource": "own/x1"}            # matches the http annotation of the API's own IAM RPCs (/v1/{resource=own/*}:<rpc>)
 
 
 def observe(cfg):
@@ -428,9 +503,14 @@ def observe(cfg):
                     call["call_kwargs"] = {"metadata": [["x-verif", "2"]], "retry": dict(retry)}
                     grpc_calls.append(dict(call, script=script_retry))
                     rest_calls.append(dict(call, script=[{"status": 503, "body": "{}", "tag": "fail-once"}, {"status": 200, "body": body}]))
-                else:             # request omitted (the signature's default)
+                elif rnd == 3:    # request omitted (the signature's default)
                     call["mode"] = "request-none"     # (REST: an empty request matches no binding — not examined)
                     grpc_calls.append(dict(call, script=script))
+                else:             # the API's own internal RPC under its private name: must go to the API's own path
+                    call.update(method="_" + snake(m), mode="request-instance", request_b64=codec.encode_b64(TYPES[m][0], OWN_FIELDS),
+                                call_kwargs={"metadata": [["x-verif", "4"]]})
+                    grpc_calls.append(dict(call, script=script))
+                    rest_calls.append(dict(call, script=[{"status": 200, "body": body}]))
         async_calls = copy.deepcopy(grpc_calls)
         for c in async_calls:
             if isinstance(c.get("call_kwargs", {}).get("retry"), dict):
@@ -497,7 +577,14 @@ def effective_rule(cfg, m):
 
 
 def own_all(cfg):
-    return set(cfg.get("own", []))
+    """IAM-named RPCs the API defines itself AND that are part of the generated library (public or internal).  An RPC that selective
+    generation OMITS is not: the library is built from the pruned API (API.build rebuilds the schema without it), no surface of the
+    library carries its name, so there is nothing for a same-named mixin to yield to (decision recorded in run(): ctx.assume)."""
+    return {m for m in cfg.get("own", []) if own_status(cfg, m) != "omitted"}
+
+
+def own_internal(cfg):
+    return {m for m in own_all(cfg) if own_status(cfg, m) == "internal"}
 
 
 def drop_key(cfg, obs, m, default):
@@ -520,9 +607,9 @@ def outside_view(cfg):
     """IAM-named RPCs that the API defines in a service which the examined service's sub-package view does NOT contain (the view
     of a service declared in sub-package V holds the services of V and below; the view of a service of the API package holds all)"""
     v = sub_tuple(cfg, target_of(cfg))
-    if not cfg.get("own") or sub_tuple(cfg, cfg.get("own_service", "Library"))[:len(v)] == v:
+    if not own_all(cfg) or sub_tuple(cfg, cfg.get("own_service", "Library"))[:len(v)] == v:
         return set()
-    return set(cfg["own"])
+    return own_all(cfg)
 
 
 def extra_key(cfg, obs, m, default):
@@ -617,14 +704,11 @@ def model_yaml(cfg):
 
 
 def model_api(cfg):
-    """every service of the API with the sub-package of its declaring file, and the sub-package of the examined service (the
-    model derives the view the service's templates are rendered with)"""
-    svcs = {"Library": ["GetBook"]}
-    if has_second(cfg):
-        svcs["Admin"] = ["PingBook"]
-    for m in cfg.get("own", []):
-        svcs[cfg.get("own_service", "Library")].append(m)
-    return {"services": [{"sub": sub_tuple(cfg, s), "methods": ms} for s, ms in svcs.items()], "view": sub_tuple(cfg, target_of(cfg))}
+    """every service of the API as DECLARED — the sub-package of its file, its RPCs and what selective generation makes of each
+    (public / internal / omitted) — and the sub-package of the examined service; the model derives the services API.build leaves
+    (omitted RPCs pruned, internal ones kept) and the view the examined service's templates are rendered with"""
+    return {"services": [{"sub": sub_tuple(cfg, s), "methods": [[m, st] for m, st in ms]} for s, ms in api_rpcs(cfg).items()],
+            "view": sub_tuple(cfg, target_of(cfg))}
 
 
 def model_req(jf):
@@ -635,19 +719,26 @@ def sig(cfg):
     """distinct-configuration signature"""
     rs = sorted((ru["selector"], ru["verb"], bool(ru["body"]), ru["pattern"] or "", len(ru["additional"])) for ru in cfg["rules"])
     return [sorted(set(cfg["apis"]) & {OPS, IAM, LOC}), rs, cfg["transport"], cfg["add_iam"], sorted(cfg["own"]), cfg["own_service"],
-            cfg.get("layout", "flat"), sorted(cfg_subs(cfg).items()), target_of(cfg)]
+            cfg.get("layout", "flat"), sorted(cfg_subs(cfg).items()), target_of(cfg),
+            (cfg["selective"]["internal"], sorted(cfg["selective"]["allow"])) if cfg.get("selective") else None]
 
 
 def judge(ctx, cfg, obs, label=""):
     payload = {"cfg": cfg}
     listed = sorted(set(cfg["apis"]) & {OPS, IAM, LOC})
     ctx.case({"listed": listed, "n_rules": len(cfg["rules"]), "transport": cfg["transport"], "add_iam": cfg["add_iam"], "own": cfg["own"],
-              "layout": cfg.get("layout", "flat"), "packages": cfg_subs(cfg), "examined_service": target_of(cfg)},
+              "layout": cfg.get("layout", "flat"), "packages": cfg_subs(cfg), "examined_service": target_of(cfg),
+              "selective": cfg.get("selective")},
              distinct_key=sig(cfg))
     ctx.count("listed_apis", "+".join(a.split(".")[-1] for a in listed) or "none")
     ctx.count("transport", cfg["transport"]); ctx.count("add_iam", cfg["add_iam"]); ctx.count("own_iam_rpcs", len(cfg["own"]))
     ctx.count("rules_with_additional_bindings", sum(1 for ru in cfg["rules"] if ru["additional"]))
     tgt, subs = target_of(cfg), cfg_subs(cfg)
+    sg = cfg.get("selective")
+    ctx.count("selective_generation", ("generate_omitted_as_internal" if sg["internal"] else "omit") if sg else "off")
+    if sg and cfg["own"]:
+        sts = sorted({own_status(cfg, m) for m in cfg["own"]})
+        ctx.count("own_iam_rpcs_under_selective_generation", "+".join(sts) + (":examined-service" if cfg["own_service"] == tgt else ":other-service"))
     ctx.count("layout", cfg.get("layout", "flat") + (":nested" if any("." in v for v in subs.values()) else ""))
     if cfg.get("layout", "flat") != "flat":
         ctx.count("examined_service", ("sub-package" if subs[tgt] else "api-package") + ":messages-in-" + ("sub-package" if subs["msgs"] else "api-package")
@@ -727,7 +818,9 @@ def judge(ctx, cfg, obs, label=""):
         return
     # ------------------------------------------------ T3: presence
     tr = cfg["transport"].split("+")
-    own_here = set(cfg["own"]) if cfg["own_service"] == tgt else set()
+    own_here = own_all(cfg) if cfg["own_service"] == tgt else set()      # the examined service's own IAM-named RPCs that are generated
+    own_int = own_here & own_internal(cfg)                                # … as internal: client method `_x`, transport property / stub `x`
+    own_pub = own_here - own_int                                          # … as public: they occupy the client's name `x`
     kinds = [("sync", "dir_sync", "exposed_sync")] + ([("async", "dir_async", "exposed_async")] if "grpc" in tr else [])
     for kind, key, mkey in kinds:
         names = set(obs.get(key, {}).get("names", []))
@@ -736,12 +829,15 @@ def judge(ctx, cfg, obs, label=""):
             continue
         ctx.traces += 1
         present = {m for m in ALL_METHODS if snake(m) in names}
-        model_present = set(sel[mkey]) | own_here
+        model_present = set(sel[mkey]) | own_pub
+        for m in sorted(own_int):
+            if "_" + snake(m) not in names:
+                ctx.fail("internal-own-iam-rpc:missing", f"{kind} client has no _{snake(m)}: the API's own {m} is generated as internal", dict(payload, method=m, client=kind))
         if present != model_present:
             ctx.disagree(f"T3:c17.presence.{kind}", f"model {sorted(model_present)} vs impl {sorted(present)}", payload)
         for m in ALL_METHODS:
             legacy = cfg["add_iam"] and m in IAM_METHODS
-            want = expected_exposed(cfg, m) or legacy or m in own_here
+            want = expected_exposed(cfg, m) or legacy or m in own_pub
             if want and m not in present:
                 k = drop_key(cfg, obs, m, "presence:missing")
                 if k != "presence:missing":
@@ -795,13 +891,26 @@ def judge(ctx, cfg, obs, label=""):
             legacy = cfg["add_iam"] and m in IAM_METHODS
             want = expected_exposed(cfg, m) or legacy
             ctx.traces += 1
-            ctx.count("grpc_calls", f"round{rnd}:{kind}:{'legacy' if legacy else ('mixin' if want else ('own' if m in own_here else 'absent'))}")
+            if rnd == 4:
+                # ---- the API's own internal RPC, called by its private name: exactly one request, at the API's own path, with the caller's request
+                ctx.count("grpc_calls", f"round4:{kind}:own-internal")
+                srv = res.get("server", [])
+                own_path = f"/{pkg_of(cfg, tgt)}.{tgt}/{m}"
+                if "ok" not in res:
+                    ctx.fail("internal-own-iam-rpc:raised", f"{kind} _{snake(m)} raised {res.get('raised')}: {res.get('msg', '')[:200]}", p2)
+                elif [x["path"] for x in srv] != [own_path]:
+                    ctx.fail("internal-own-iam-rpc:wire-path", f"{kind} _{snake(m)} (the API's own {m}, generated as internal) reached "
+                             f"{[x['path'] for x in srv]}, the API's own path is {own_path}", p2)
+                elif codec.decode(TYPES[m][0], srv[0]["requests"][0]) != codec.normal(TYPES[m][0], OWN_FIELDS):
+                    ctx.fail("internal-own-iam-rpc:request", f"{kind} _{snake(m)} sent {codec.decode(TYPES[m][0], srv[0]['requests'][0])}", p2)
+                continue
+            ctx.count("grpc_calls", f"round{rnd}:{kind}:{'legacy' if legacy else ('mixin' if want else ('own' if m in own_pub else ('own-internal-public-name' if m in own_int else 'absent')))}")
             srv = res.get("server", [])
             no_such_method = res.get("raised") == "AttributeError" and not srv and f"has no attribute '{snake(m)}'" in res.get("msg", "")
             if rnd == 3:
                 # ---- the request omitted (`request: Optional[...] = None`): OUTSIDE the statement (it does not quantify over request
                 # forms, and without a request there is no name/resource field to route on) — informational only, nothing is demanded
-                if not want or m in own_here or no_such_method:
+                if not want or m in own_pub or no_such_method:
                     continue
                 if res.get("raised") == "AttributeError" and "'NoneType' object has no attribute" in res.get("msg", ""):
                     what = "AttributeError-on-None"
@@ -826,7 +935,7 @@ def judge(ctx, cfg, obs, label=""):
             else:
                 got = {"outcome": res.get("raised", "?")}
             # ---- correspondence with the model (own RPCs of the service are outside the mixin model)
-            if m not in own_here:
+            if m not in own_pub:
                 mm = mo[m]
                 exp = {"outcome": mm["outcome"]}
                 if mm["outcome"] == "sent":
@@ -838,7 +947,7 @@ def judge(ctx, cfg, obs, label=""):
                     if not hdr or urllib.parse.unquote(hdr[0]) != f"{f}={cfg['calls'][m]['fields'][f]}":
                         ctx.disagree(f"T3:c17.grpc.{kind}.routing", f"{m}: model field {f} vs header {hdr}", p2)
             # ---- oracle
-            if m in own_here and not legacy:
+            if m in own_pub and not legacy:
                 if got.get("path") != f"/{pkg_of(cfg, tgt)}.{tgt}/{m}":
                     ctx.fail("own-iam-rpc-shadowed", f"{kind} {snake(m)} is defined by the API itself but the call went to {got}", p2)
                 continue
@@ -884,15 +993,27 @@ def judge(ctx, cfg, obs, label=""):
         if "calls" not in sess:
             ctx.fail("session-failed", f"REST session failed: {str(sess)[-300:]}", payload)
             return
-        flat = [(rnd, m) for rnd, seq in enumerate(call_rounds(cfg)[:2], 1) for m in seq]
+        flat = [(rnd, m) for rnd, seq in enumerate(call_rounds(cfg), 1) if rnd in REST_ROUNDS for m in seq]
         for (rnd, m), res in zip(flat, sess["calls"]):
             p2 = dict(payload, method=m, client="rest", round=rnd)
+            if rnd == 4:
+                # ---- the API's own internal RPC by its private name: verb and path of ITS OWN http annotation (post /v1/{resource=own/*}:<rpc>)
+                ctx.traces += 1
+                ctx.count("rest_calls", "round4:own-internal")
+                srv = res.get("server", [])
+                own_uri = "/v1/" + OWN_FIELDS["resource"] + ":" + m[0].lower() + m[1:]
+                if "ok" not in res:
+                    ctx.fail("internal-own-iam-rpc:raised", f"rest _{snake(m)} raised {res.get('raised')}: {res.get('msg', '')[:200]}", p2)
+                elif [(x["verb"], x["path"]) for x in srv] != [("POST", own_uri)]:
+                    ctx.fail("internal-own-iam-rpc:wire-path", f"rest _{snake(m)} (the API's own {m}, generated as internal) went out as "
+                             f"{[(x['verb'], x['path']) for x in srv]}, its own http annotation says POST {own_uri}", p2)
+                continue
             legacy = cfg["add_iam"] and m in IAM_METHODS
             if legacy and not expected_exposed(cfg, m):
                 ctx.assume("add-iam-methods is the gRPC-interface legacy option (options.py: 'microgenerator implementation for "
                            "reroute_to_grpc_interface'): legacy IAM methods over the REST transport are not examined")
                 continue
-            if m in own_here:
+            if m in own_pub:
                 continue                                  # the API's own RPC with its own http annotation: C04's subject
             want = expected_exposed(cfg, m)
             ctx.traces += 1
@@ -1124,8 +1245,17 @@ def matrix(r, thorough):
     for k, (own_svc, tgt) in enumerate([("Library", "Admin"), ("Admin", "Library"), ("Admin", "Admin"), ("Library", "Library")] * (3 if thorough else 1)):
         own, ir = OWN_VS_RULES[k % len(OWN_VS_RULES)]
         c = gen_cfg(r, listed=[IAM] + ([LOC] if k % 2 else []), transport=["grpc+rest", "grpc", "rest"][k % 3], add_iam=False, own=own,
-                    iam_rules=sorted(set(ir) | set(own[:1])), layout="split" if k % 4 != 3 else "allsub")
+                    iam_rules=sorted(set(ir) | set(own[:1])), layout="split" if k % 4 != 3 else "allsub", selective=False)
         c.update(own_service=own_svc, target=tgt, second=True)
+        cfgs.append(c)
+    # selective generation x IAM RPCs defined by the API itself: allow-listed / generated as internal / omitted, in the examined or the other service
+    for k, (internal, ownmode, own_svc) in enumerate([(True, "out", "Library"), (True, "allow", "Library"), (False, "out", "Library"), (True, "out", "Admin"),
+                                                      (False, "out", "Admin"), (True, "mixed", "Library"), (False, "mixed", "Library")] * (3 if thorough else 1)):
+        own, ir = OWN_VS_RULES[(k + 1) % len(OWN_VS_RULES)]
+        c = gen_cfg(r, listed=[IAM] + ([OPS] if k % 2 else []), transport=["grpc+rest", "grpc", "rest"][k % 3], add_iam=False, own=own,
+                    iam_rules=sorted(set(ir) | set(own[:1])) if k % 4 else list(own), layout="flat" if k % 3 else "allsub", selective=False)
+        c.update(own_service=own_svc, target="Library", second=(own_svc == "Admin" or c.get("second", False)))
+        apply_selective(r, c, {"internal": internal, "own": ownmode})
         cfgs.append(c)
     return cfgs
 
@@ -1136,7 +1266,10 @@ def run(ctx):
                 "x transports {grpc, rest, grpc+rest} x add-iam-methods x IAM RPCs defined by the API itself (in the client's or another service) "
                 "x file layout (45 % of the generated APIs use a proto sub-package acme.lib.v1.<sub>, one or two levels: all services in one "
                 "sub-package with the messages in the API package / one service in the API package and one in a sub-package / the services in "
-                "the API package and their messages in a sub-package; the examined client is the API-package or the sub-package service); "
+                "the API package and their messages in a sub-package; the examined client is the API-package or the sub-package service) "
+                "x selective GAPIC generation (off / allow-list with the other RPCs omitted / allow-list with generate_omitted_as_internal; half of the "
+                "APIs that define IAM RPCs themselves, 15 % of the others; the API's own IAM RPCs allow-listed, all outside the list, or mixed; an "
+                "internal own RPC is also called by its private name `_set_iam_policy` and must reach the API's own path / http annotation); "
                 "per configuration: all 10 mixin RPCs are called on the sync, asyncio and REST clients with generated requests; distinct by "
                 "(listed set, rule set, transport, option, API-defined RPCs, layout, examined service); non-trivial = every configuration")
     workers = int(os.environ.get("VERIF_WORKERS", "6"))
@@ -1156,6 +1289,10 @@ def run(ctx):
     ctx.assume("path variables of mixin rules are fields of the canonical request messages (none is a reserved name, checked on the live "
                "RESERVED_NAMES): convert_uri_fieldnames is the identity on such URIs")
     ctx.assume("add-iam-methods is not combined with IAM RPCs defined by the API itself")
+    ctx.assume("'RPCs defined by the API itself' are the API's RPCs that the library carries, public or internal (generate_omitted_as_internal: the "
+               "transport property and the stub of an internal RPC keep the mixin's name, so the mixin must yield just the same); an own IAM RPC "
+               "that selective generation OMITS is not part of the generated API (API.build rebuilds the schema without it, no surface of the "
+               "library carries its name): the same-named mixin, if listed and ruled, is then expected on the clients — which is what the code does")
     ctx.assume("rules with a custom or unset pattern are examined at function level only (no REST method can be built from them)")
 
 
